@@ -34,6 +34,8 @@ type Case struct {
 	Steps  int    `json:"steps"`
 	Omit   bool   `json:"omit"`   // resolver.omit_template_comment
 	Mangle int    `json:"mangle"` // percentage of type / field names drawn from the name-mangling pools
+	Clash  int    `json:"clash"`  // round 6: percentage of edited files that get imports whose alias dodges a taken package name
+	Bytes  int    `json:"bytes"`  // round 6: percentage of edited files written in a non-canonical byte shape (CRLF, BOM, ...), bodies with non-ASCII text
 	Shadow int    `json:"shadow"` // percentage of new fields with arguments / rewritten bodies with locals that shadow a package the template reserves
 }
 
@@ -62,6 +64,7 @@ type W struct {
 	Sch               *Schema
 	KeepUnusedImports bool
 	Shadow            int
+	Clash, Bytes      int
 }
 
 // generate runs one `gqlgen generate` the way a user does: in a process of its own (gqlgen keeps process-global
@@ -183,6 +186,7 @@ func worker(c Case) {
 	manglePct = c.Mangle
 	shadowPct = c.Shadow
 	w.Shadow = c.Shadow
+	w.Clash, w.Bytes = c.Clash, c.Bytes
 	w.Sch = initialSchema(r)
 	for k := 0; k <= c.Steps; k++ {
 		o := Obs{Case: c.ID, Kind: c.Kind, Seed: c.Seed, Step: k, Layout: c.Layout, Omit: c.Omit, Dir: dir, AddOnly: true}
@@ -234,7 +238,7 @@ func randomScript(w *W, r *rng.R, k int, o *Obs) error {
 		o.Ops = []string{"initial"}
 		return nil
 	}
-	if err := w.userEdit(r, EditOpts{Prob: 20, Helpers: r.Below(3), Shadow: w.Shadow}); err != nil {
+	if err := w.userEdit(r, EditOpts{Prob: 20, Helpers: r.Below(3), Shadow: w.Shadow, ClashImports: w.Clash, BytesPct: w.Bytes, Unicode: w.Bytes > 0}); err != nil {
 		return err
 	}
 	if r.Below(5) == 0 {
@@ -326,7 +330,17 @@ func main() {
 		if i%3 == 1 || i%6 == 2 {
 			shadow = 60
 		}
-		cases = append(cases, Case{Kind: "random", Seed: r.Next(), Layout: layout, Steps: steps + r.Below(2), Omit: i%4 == 1, Mangle: mangle, Shadow: shadow})
+		// round 6: every second random case writes 60% of its edited files in a byte shape other than gofmt's (CRLF, mixed
+		// endings, BOM, no final newline, space indentation) with non-ASCII text in the bodies; two in five add imports
+		// whose alias dodges a package name that is already taken
+		bytesPct, clash := 0, 0
+		if i%2 == 0 {
+			bytesPct = 60
+		}
+		if i%5 == 0 || i%5 == 3 {
+			clash = 70
+		}
+		cases = append(cases, Case{Kind: "random", Seed: r.Next(), Layout: layout, Steps: steps + r.Below(2), Omit: i%4 == 1, Mangle: mangle, Shadow: shadow, Clash: clash, Bytes: bytesPct})
 	}
 	for i := range cases {
 		cases[i].ID = i
